@@ -131,6 +131,8 @@ Definition add_plugin (m : md) (c : N) : md :=
   else if c =? 54 (* 6 *) then block_add_rule m R_CUSTOM_A r_before_all
   else if c =? 55 (* 7 *) then block_add_rule m R_CUSTOM_B r_before_all
   else if c =? 56 (* 8 *) then add_inline m I_CUSTOM_PAIR
+  else if c =? 103 (* g *) then block_add_rule m R_CUSTOM_A (r_alias R_CUSTOM_GROUP)
+  else if c =? 71 (* G *) then block_add_rule m R_CUSTOM_B (r_alias R_CUSTOM_GROUP)
   else m.
 
 (* composite shorthands C (cmark::add) and W (html::add) *)
@@ -155,7 +157,8 @@ Definition remove_plugin_rule (m : md) (c : N) : md :=
   else if c =? 88 then rbl R_HTMLBLOCK else if c =? 83 then rco C_SOURCEPOS else if c =? 74 then rco C_FRAGJOIN
   else if (c =? 49) || (c =? 54) then rbl R_CUSTOM_A else if (c =? 50) || (c =? 55) then rbl R_CUSTOM_B
   else if c =? 51 then rin I_CUSTOM_LETTER else if c =? 52 then rin I_CUSTOM_PUNCT
-  else if c =? 53 then rco C_CUSTOMCORE else if c =? 56 then rin I_CUSTOM_PAIR else m.
+  else if c =? 53 then rco C_CUSTOMCORE else if c =? 56 then rin I_CUSTOM_PAIR
+  else if c =? 90 (* Z: by the shared alias *) then rbl R_CUSTOM_GROUP else m.
 
 Definition has_plugin_rule (m : md) (c : N) : bool :=
   let hin (id : N) := r_contains (md_inline m) id in
@@ -171,7 +174,8 @@ Definition has_plugin_rule (m : md) (c : N) : bool :=
   else if c =? 88 then hbl R_HTMLBLOCK else if c =? 83 then hco C_SOURCEPOS else if c =? 74 then hco C_FRAGJOIN
   else if (c =? 49) || (c =? 54) then hbl R_CUSTOM_A else if (c =? 50) || (c =? 55) then hbl R_CUSTOM_B
   else if c =? 51 then hin I_CUSTOM_LETTER else if c =? 52 then hin I_CUSTOM_PUNCT
-  else if c =? 53 then hco C_CUSTOMCORE else if c =? 56 then hin I_CUSTOM_PAIR else false.
+  else if c =? 53 then hco C_CUSTOMCORE else if c =? 56 then hin I_CUSTOM_PAIR
+  else if c =? 90 then hbl R_CUSTOM_GROUP else false.
 
 (* skip_text.rs:98-125 -- choose_text_impl over the keys of the marker map *)
 Definition choose_text_impl (charmap : list (N * list N)) : bool * list N :=
